@@ -516,6 +516,53 @@ where
     }
 }
 
+/// Verification hook (`--cfg gluon_verif`): the raw token stream and the token stream after the
+/// layout algorithm, as `(kind, start byte, end byte, line, column)`; the second component is
+/// the first error, at which the stream stops.
+#[cfg(gluon_verif)]
+pub fn verif_tokens(
+    input: &str,
+    with_layout: bool,
+) -> (Vec<(String, u32, u32, u32, u32)>, Option<String>) {
+    let mut out = Vec::new();
+    if with_layout {
+        let mut tokenizer = Tokenizer::new(input);
+        let mut layout = Layout::new(&mut tokenizer);
+        loop {
+            match layout.verif_next() {
+                Ok(tok) => {
+                    let eof = tok.value == Token::EOF;
+                    out.push((
+                        format!("{:?}", tok.value),
+                        tok.span.start().absolute.to_usize() as u32,
+                        tok.span.end().absolute.to_usize() as u32,
+                        tok.span.start().line.to_usize() as u32,
+                        tok.span.start().column.to_usize() as u32,
+                    ));
+                    if eof {
+                        return (out, None);
+                    }
+                }
+                Err(err) => return (out, Some(format!("{:?}", err.value))),
+            }
+        }
+    } else {
+        for tok in Tokenizer::new(input) {
+            match tok {
+                Ok(tok) => out.push((
+                    format!("{:?}", tok.value),
+                    tok.span.start().absolute.to_usize() as u32,
+                    tok.span.end().absolute.to_usize() as u32,
+                    tok.span.start().line.to_usize() as u32,
+                    tok.span.start().column.to_usize() as u32,
+                )),
+                Err(err) => return (out, Some(format!("{:?}", err.value))),
+            }
+        }
+        (out, None)
+    }
+}
+
 pub fn reparse_infix<'ast, Id>(
     arena: ast::ArenaRef<'_, 'ast, Id>,
     metadata: &FnvMap<Id, Arc<Metadata>>,
